@@ -395,3 +395,14 @@ func Diff(a, b StateDump) []string {
 
 // Backends lists the node database backends of the consensus state.
 var Backends = []string{"badger", "pathbadger"}
+
+// InjectBeforeMeta inserts raw transactions into an already proposed block right before the
+// metadata transaction (what a Byzantine proposer could do) and recomputes the block id.
+func (b *Block) InjectBeforeMeta(raws ...[]byte) {
+	n := len(b.Full)
+	full := append([][]byte{}, b.Full[:n-1]...)
+	full = append(full, raws...)
+	full = append(full, b.Full[n-1])
+	b.Full = full
+	b.Hash = blockHash(b.Height, full, b.Proposer.Address)
+}
